@@ -20,6 +20,7 @@ import (
 	"sort"
 	"strings"
 	"testing"
+	"time"
 
 	"github.com/rhysd/actionlint/verifshim/vexec"
 	"github.com/rhysd/actionlint/verifshim/vsched"
@@ -56,7 +57,9 @@ var c02Collision = map[string]string{
 	// as if the break were in the source, and lands on the position of the next entry's diagnostic
 	"escaped-line-break-tie":      "on: push\njobs:\n  t:\n    runs-on: ubuntu-latest\n    env:\n      A: \"${{\\nfoo }}\"\n      B: ${{ bar }}\n    steps:\n      - run: echo\n",
 	"escaped-line-break-tie-with": "on: push\njobs:\n  t:\n    runs-on: ubuntu-latest\n    steps:\n      - uses: actions/checkout@v4\n        with:\n          ref: \"${{\\nfoo }}\"\n          key: ${{ bar }}\n",
-	"workflow-call-self":          "on:\n  workflow_call:\n    inputs:\n      a:\n        type: string\n      b:\n        type: number\n        required: true\n    secrets:\n      s:\n        required: true\n    outputs:\n      o1:\n        value: ${{ jobs.a.outputs.nope }}\n      o2:\n        value: ${{ jobs.nope.outputs.x }}\njobs:\n  a:\n    runs-on: ubuntu-latest\n    outputs:\n      x: y\n    steps:\n      - run: echo ${{ inputs.zzz }} ${{ secrets.qqq }}\n",
+	// the same text as a ref filter and as a path filter, valid as one and not as the other
+	"filter-text-shared-by-refs-and-paths": "on:\n  push:\n    branches: ['docs/', '/src', 'a b', 'ok']\n    paths: ['docs/', '/src', 'a b', 'ok']\n  pull_request:\n    paths-ignore: ['docs/', 'x~y']\n    tags-ignore: ['x~y', 'docs/']\njobs:\n  a:\n    runs-on: ubuntu-latest\n    steps:\n      - run: echo\n",
+	"workflow-call-self":                   "on:\n  workflow_call:\n    inputs:\n      a:\n        type: string\n      b:\n        type: number\n        required: true\n    secrets:\n      s:\n        required: true\n    outputs:\n      o1:\n        value: ${{ jobs.a.outputs.nope }}\n      o2:\n        value: ${{ jobs.nope.outputs.x }}\njobs:\n  a:\n    runs-on: ubuntu-latest\n    outputs:\n      x: y\n    steps:\n      - run: echo ${{ inputs.zzz }} ${{ secrets.qqq }}\n",
 }
 
 // project-based collision inputs (paths relative to the tree root of C10's layout)
@@ -173,6 +176,33 @@ func c02TieSwap(a, b string) bool {
 	return false
 }
 
+// c02TimeZones: the time zone of the machine is not an input: scheduled events are judged the same
+// wherever the linter runs (time.Local is set by the harness; cases run sequentially).
+func c02TimeZones(r *vReport) {
+	crons := []string{"0,2 0 * * *", "58,59 23 * * *", "*/7 3 * * *", "0 0 * * *", "1,3 12 1 1 *", "*/4 * * * *", "0,1 0,9,15,19 * * *"}
+	saved := time.Local
+	defer func() { time.Local = saved }()
+	zones := []*time.Location{time.UTC, time.FixedZone("east9", 9*3600), time.FixedZone("west5", -5*3600), time.FixedZone("nepal", 5*3600+45*60), time.FixedZone("west11", -11*3600), time.FixedZone("east14", 14*3600)}
+	for _, c := range crons {
+		src := "on:\n  schedule:\n    - cron: '" + c + "'\njobs:\n  a:\n    runs-on: ubuntu-latest\n    steps:\n      - run: echo\n"
+		var first string
+		for zi, z := range zones {
+			time.Local = z
+			res := vLint(src, nil)
+			r.Evaluations++
+			r.Transitions++
+			r.Validated++
+			obs := strings.Join(vDiagStrings(res.Errs), "\n")
+			if zi == 0 {
+				first = obs
+			} else if obs != first {
+				r.Violation("time-zone", fmt.Sprintf("cron %q: diagnostics differ between a machine in UTC and one in zone %s\n UTC: %s\n %s: %s", c, z, first, z, obs), map[string]any{"time_zone": true, "choices": []int{}})
+			}
+		}
+		r.Class("time zone / cron "+c, first != "")
+	}
+}
+
 func TestVerifC02(t *testing.T) {
 	r := vNewReport("C02")
 	defer r.Write(t)
@@ -188,7 +218,7 @@ func TestVerifC02(t *testing.T) {
 	r.Bounds["map_order_deviations_breadth_corpus"] = devBreadth
 	r.Bounds["preemptions"] = maxPreempt
 	r.Bounds["history_depth"] = histDepth
-	r.Extra["rule"] = "inputs = collision corpus (same-position / several-candidate diagnostics) + every workflow under testdata/examples|ok|err + project files; per input every execution with <= D non-identity iteration orders over all range-over-map sites (all k! orders for k<=4 keys, identity/reverse/rotations otherwise) must print the identity execution's bytes (default format with snippets, returned list, and a custom -format template listing all rule kinds); multi-file LintFiles runs: all interleavings up to the preemption bound must print identical bytes; histories: each call on a reused Linter equals the call on a fresh one. class = (input, number of distinct outputs); non-trivial = input whose diagnostics include two at one position or that reaches >= 5 map-order sites"
+	r.Extra["rule"] = "inputs = collision corpus (same-position / several-candidate diagnostics) + every workflow under testdata/examples|ok|err + project files; per input every execution with <= D non-identity iteration orders over all range-over-map sites (all k! orders for k<=4 keys, identity/reverse/rotations otherwise) must print the identity execution's bytes, and so must a second identical run (default format with snippets, returned list, and a custom -format template listing all rule kinds); multi-file LintFiles runs: all interleavings up to the preemption bound must print identical bytes; histories: each call on a reused Linter equals the call on a fresh one; 7 cron schedules under 6 machine time zones. class = (input, number of distinct outputs); non-trivial = input whose diagnostics include two at one position or that reaches >= 5 map-order sites"
 	r.Extra["assumptions"] = []string{"map iteration inside third-party packages (yaml.v3, doublestar, cron) is not controlled", "GOMAXPROCS / repeated runs are covered through interleavings and iteration orders under data-race freedom"}
 	sites := vLoadSites()
 	siteName := func(id int) string {
@@ -209,6 +239,7 @@ func TestVerifC02(t *testing.T) {
 	}
 	if r.Shard == 0 && vReplayInput() == nil {
 		c02Comparators(r)
+		c02TimeZones(r)
 	}
 	root := vTempDir(t, "c02-")
 	vWriteFiles(t, root, c02Tree)
@@ -244,6 +275,7 @@ func TestVerifC02(t *testing.T) {
 		Choices  []int    `json:"choices"`
 		History  []string `json:"history"`
 		Procs    bool     `json:"processors"`
+		Repeat   bool     `json:"repeat"`
 	}
 	isReplay := false
 	if raw := vReplayInput(); raw != nil {
@@ -253,6 +285,14 @@ func TestVerifC02(t *testing.T) {
 		isReplay = true
 		var cmp struct {
 			Comparator string `json:"comparator"`
+		}
+		var tz struct {
+			TZ bool `json:"time_zone"`
+		}
+		if jsonUnmarshal(raw, &tz) == nil && tz.TZ {
+			c02TimeZones(r)
+			c02TimeZones(r)
+			return
 		}
 		if jsonUnmarshal(raw, &cmp) == nil && cmp.Comparator != "" {
 			c02Comparators(r)
@@ -266,6 +306,17 @@ func TestVerifC02(t *testing.T) {
 	for i, in := range inputs {
 		if isReplay {
 			if replay.Input != in.Name {
+				continue
+			}
+			if replay.Repeat {
+				_, o1 := vsched.Replay(vsched.Config{}, nil, func(x *vsched.Exec) string { return c02Observe(in, root) })
+				_, o2 := vsched.Replay(vsched.Config{}, nil, func(x *vsched.Exec) string { return c02Observe(in, root) })
+				fmt.Printf("replay: first and second run equal=%v\n%s\n", o1 == o2, c02FirstDiff(o1, o2))
+				// (the first run of THIS process; earlier runs of the failing process may be needed to differ)
+				if o1 != o2 {
+					r.Violation("repeat", c02FirstDiff(o1, o2), map[string]any{"input": in.Name, "repeat": true, "choices": []int{}})
+				}
+				r.Class("replay", true)
 				continue
 			}
 			cfg := vsched.Config{MaxDev: 99}
@@ -290,6 +341,16 @@ func TestVerifC02(t *testing.T) {
 		}
 		if r.Expired() {
 			break
+		}
+		// the same input linted twice in a row, with a fresh Linter each time (default order everywhere):
+		// nothing may be remembered from one run to the next
+		{
+			_, o1 := vsched.Replay(vsched.Config{}, nil, func(x *vsched.Exec) string { return c02Observe(in, root) })
+			_, o2 := vsched.Replay(vsched.Config{}, nil, func(x *vsched.Exec) string { return c02Observe(in, root) })
+			r.Transitions += 2
+			if o1 != o2 {
+				r.Violation("repeat", fmt.Sprintf("input %s: the second of two identical runs (fresh Linter values) prints different bytes: %s", in.Name, c02FirstDiff(o1, o2)), map[string]any{"input": in.Name, "repeat": true, "choices": []int{}})
+			}
 		}
 		dev := devBreadth
 		if i < nCollision {
